@@ -489,8 +489,15 @@ def explore(ctx, name: str, cap: int):
     ctx.extra.setdefault("scenarios", {})[name] = {"states": len(seen), "depth": depth, "closed": not frontier}
 
 
+def _det(case):
+    name, hist = case
+    return key(build(name, hist).snapshot())
+
+
 def run(ctx):
     names = list(scenarios())
+    ctx.determinism("history replay", _det, [(n, h) for n in names for h in ([], [("step",)] * 12, [("deliver", 1, 0, "recv"), ("step",), ("step",)])
+                                             if not (h and h[0][0] == "deliver" and (1, 0, "recv") not in {r.stream for r in scenarios()[n][1]})])
     cap = 30000 if ctx.tier == "quick" else 300000
     for name in names:
         explore(ctx, name, cap)
